@@ -229,7 +229,7 @@ Print Assumptions C04_history_nonvacuous.
    -> transport -> coder.  "Every stanza sent ... arrives at the other side intact and in sending
    order": for every list of well-formed stanzas the sending side accepted and every chunking, the
    receiving side hands up exactly those stanzas, in order, each once, and buffers nothing. *)
-From YV Require Import C01.C01Model C01.C01Encode C01.C01Inst Gen.C01Dict C05.C05Model C05.C05Proofs C04.C04Pipeline.
+From YV Require Import C01.C01Model C01.C01DecodeNode C02.C02Spec C01.C01Encode C01.C01Inst Gen.C01Dict C05.C05Model C05.C05Proofs C04.C04Pipeline.
 
 Theorem C04_pipeline_intact : forall seal open_,
   (forall n p, open_ n (seal n p) = Some p) ->
@@ -254,6 +254,21 @@ Theorem C04_pipeline_prefix : forall seal open_,
   recv_all open_ inflate chunks = Some (map (fun t => Ok (Some t)) (firstn k ts), partial).
 Proof. exact pipeline_prefix_thm. Qed.
 Print Assumptions C04_pipeline_prefix.
+
+(* the other direction, with the freedom the PEER has: every valid frame of a tree in the sense of C02's format
+   relation (any permitted header width, literal instead of token, packed or raw digits, deflated frame), sealed
+   under the running counter, cut by the network in any way, reaches the layer above the coder as that tree, in
+   sending order, each exactly once *)
+Theorem C04_pipeline_incoming : forall seal open_,
+  (forall n p, open_ n (seal n p) = Some p) ->
+  (forall n p, length (seal n p) = length p + 16) ->
+  forall inflate ts bs chunks,
+  Forall2 (fun t b => attrs_ok t /\ Frame D inflate t b) ts bs ->
+  Forall (fun b => (C05Model.lenN b + 16 < 16777216)%N) bs ->
+  concat chunks = concat (map C05Model.wire (seal_all seal 0 bs)) ->
+  recv_all open_ inflate chunks = Some (map (fun t => Ok (Some t)) ts, []).
+Proof. exact pipeline_incoming_thm. Qed.
+Print Assumptions C04_pipeline_incoming.
 
 (* non-vacuity: the cipher hypotheses are satisfiable and a concrete run exists *)
 Theorem C04_pipeline_nonvacuous :
